@@ -96,9 +96,47 @@ int main()
     // ---- Gaussian anamorphosis (Hermite, empirical): Y -> Z -> Y and Z -> Y -> Z inside the reported interval
     {
       VectorDouble data; for (int i = 0; i < 200; i++) { double g = law_gaussian(); data.push_back(rng.coin(0.5) ? exp(0.6 * g) * 3. : 10. + 2. * g + 0.3 * g * g * g); }
+      // one data set out of three: skewed values with clusters of ties (the fitted expansion then rings on the
+      // plateaux and the practical interval is narrower than the absolute one)
+      if (rng.coin(0.34))
+      {
+        data.clear();
+        int n1 = (int)rng.range(120, 180), n2 = (int)rng.range(60, 130), n3 = (int)rng.range(5, 25);
+        for (int i = 0; i < n1; i++) data.push_back(exp(0.5 * law_gaussian()) * 2.);
+        double t1 = 8. + (double)rng.range(0, 4), t2 = t1 + 5. + (double)rng.range(0, 10);
+        for (int i = 0; i < n2; i++) data.push_back(t1);
+        for (int i = 0; i < n3; i++) data.push_back(t2);
+        st.hit("anam_data_with_ties");
+      }
       AnamHermite* ah = AnamHermite::create((int)rng.range(10, 40));
       if (ah->fitFromArray(data) == 0)
       {
+        // ---- beyond the practical interval: linear extension towards the absolute bounds, both ways
+        {
+          double aylo = ah->getAymin(), ayhi = ah->getAymax(), pylo = ah->getPymin(), pyhi = ah->getPymax();
+          double azlo = ah->getAzmin(), azhi = ah->getAzmax(), pzlo = ah->getPzmin(), pzhi = ah->getPzmax();
+          bool okb = !FFFF(aylo) && !FFFF(ayhi) && !FFFF(pylo) && !FFFF(pyhi) && !FFFF(azlo) && !FFFF(azhi) && !FFFF(pzlo) && !FFFF(pzhi);
+          if (okb && ayhi - pyhi > 1e-3 && azhi - pzhi > 1e-3 * (azhi - azlo))
+          {
+            for (int k = 0; k < 4; k++)
+            {
+              double y = pyhi + (ayhi - pyhi) * (0.05 + 0.9 * rng.unit()), z = pzhi + (azhi - pzhi) * (0.05 + 0.9 * rng.unit());
+              printf("t ext hermite_upper_y_to_z %s %s %s %s %s => %s\n", dy(ayhi).c_str(), dy(pyhi).c_str(), dy(azhi).c_str(), dy(pzhi).c_str(), dy(y).c_str(), dy(ah->transformToRawValue(y)).c_str());
+              printf("t ext hermite_upper_z_to_y %s %s %s %s %s => %s\n", dy(azhi).c_str(), dy(pzhi).c_str(), dy(ayhi).c_str(), dy(pyhi).c_str(), dy(z).c_str(), dy(ah->rawToTransformValue(z)).c_str());
+            }
+            st.hit("hermite_upper_extension_zone");
+          }
+          if (okb && pylo - aylo > 1e-3 && pzlo - azlo > 1e-3 * (azhi - azlo))
+          {
+            for (int k = 0; k < 4; k++)
+            {
+              double y = aylo + (pylo - aylo) * (0.05 + 0.9 * rng.unit()), z = azlo + (pzlo - azlo) * (0.05 + 0.9 * rng.unit());
+              printf("t ext hermite_lower_y_to_z %s %s %s %s %s => %s\n", dy(aylo).c_str(), dy(pylo).c_str(), dy(azlo).c_str(), dy(pzlo).c_str(), dy(y).c_str(), dy(ah->transformToRawValue(y)).c_str());
+              printf("t ext hermite_lower_z_to_y %s %s %s %s %s => %s\n", dy(azlo).c_str(), dy(pzlo).c_str(), dy(aylo).c_str(), dy(pylo).c_str(), dy(z).c_str(), dy(ah->rawToTransformValue(z)).c_str());
+            }
+            st.hit("hermite_lower_extension_zone");
+          }
+        }
         double ymin = ah->getPymin(), ymax = ah->getPymax();
         std::vector<double> ys, back, zs;
         for (int k = 0; k < 12; k++) { double y = ymin + (ymax - ymin) * (0.02 + 0.96 * rng.unit()); double z = ah->transformToRawValue(y); double y2 = ah->rawToTransformValue(z); ys.push_back(y); zs.push_back(z); back.push_back(y2); }
